@@ -9,10 +9,13 @@
     reported sender key) (V2: additionally box(own secret key, ephemeral key));
   * signcryption: the reported signing key is the keyring's answer for the
     content of the sender secretbox under the unboxed payload key;
-  * under `Prims.Lawful` the receiver's MAC key is the one the sender derives.
+  * under `Prims.Lawful` the receiver's MAC key is the one the sender derives;
+  * `hkey_of_honest_header`: a receiver that accepts the HONEST header derives the
+    sender's payload key (the `hkey` hypothesis of `C02_authentic_or_break`).
 -/
 import Saltpack.Model.Signcrypt
 import Saltpack.Proofs.EncLemmas
+import Saltpack.Proofs.RoundTripEnc
 import Saltpack.Toy
 
 namespace Saltpack.Proofs
@@ -427,6 +430,44 @@ theorem sender_and_receiver_agree_v2 (P : Prims) (hP : P.Lawful) (valid : Valida
   rw [hm, hs, ← hr, hv]
   simp only [Encrypt.macKeySender, if_neg v2_ne_v1, if_true, Attr.macKeySingle_comm P hP senderSecret,
     Attr.macKeySingle_comm P hP ephSecret]
+
+/-! ### the payload key of the honest header -/
+
+/-- **`hkey` of `C02_authentic_or_break`, derived for the honest header.**  If
+    the header `h` a receiver accepted IS the header an honest sender built
+    (`Encrypt.header` with ephemeral secret `ephSec`, payload key `pk`,
+    recipient list `rs`), the keyring imports the ephemeral key faithfully, and
+    the secret key that opened the receiver's entry is the key the sender
+    addressed at that position, then the payload key the receiver derived is the
+    sender's.  (What remains of `hkey` is the step from "same header hash" to
+    "same header": collision resistance of the header hash, plus determinism of
+    the header decoder.) -/
+theorem hkey_of_honest_header (P : Prims) (hP : P.Lawful) (valid : Validator) (kr : Keyring)
+    {v : Version} (hv : v = v1 ∨ v = v2) (sender : Option Bytes) (rs : List Encrypt.Recipient)
+    (ephSec pk hh : Bytes) (h : EncHeader) (hhdr : Encrypt.header P v sender ephSec pk rs = .ok h)
+    (log : List KeyCall) (st : Decrypt.State)
+    (hok : Decrypt.processHeader P valid kr hh h = (log, .ok st))
+    (himp : kr.importBoxEphemeralKey (P.boxPub ephSec) = some (P.boxPub ephSec))
+    (hsk : ∀ r, rs[st.position]? = some r → r.pub = P.boxPub st.mki.receiverKey) :
+    st.payloadKey = pk := by
+  obtain ⟨_, eph, sk, pk', pos, senderKey, hie, hpk, _, hpos, _, hrk, _, _, _, _, _, _, _, r, nonce, hr, hn, hub, _⟩ :=
+    decrypt_attribution P valid kr hh h log st hok
+  obtain ⟨_, h2, _, h4, _, h6, h7, _⟩ := header_spec P hv sender ephSec pk rs h hhdr
+  rw [h4, himp] at hie
+  cases hie
+  have hlt : pos < rs.length := by
+    rw [← h6]; exact (List.getElem?_eq_some_iff.1 hr).1
+  obtain ⟨n, hn', hr'⟩ := h7 pos hlt
+  rw [h2, hn'] at hn
+  cases hn
+  rw [hr'] at hr
+  cases hr
+  have hpub : rs[pos].pub = P.boxPub sk := by
+    rw [← hrk]
+    exact hsk rs[pos] (by rw [hpos]; exact List.getElem?_eq_getElem hlt)
+  simp only [hpub, unbox_box P hP] at hub
+  rw [hpk]
+  exact (Option.some.inj hub).symm
 
 /-! ### non-vacuity: headers the toy primitives accept -/
 
